@@ -222,8 +222,11 @@ def regression_case(draw, dists, jitters, perturb=False, ngd=False, lower=False)
     d = draw(st.integers(1, 2))
     M = draw(st.integers(1, 5))
     n = draw(st.integers(1, 6))
-    model = draw(model_recipe(d, M, NOBATCH, strategy, dist, draw(st.sampled_from(list(jitters)))))
-    case = {"d": d, "M": M, "n": n, "bp": dict(NOBATCH), "model": model, "q": draw(VM.q_params(M, [])),
+    # the natural-gradient check also runs with a batch of variational distributions (independent q_0 per batch element)
+    vb = draw(st.sampled_from([[], [], [2], [3]])) if ngd else []
+    bp = dict(NOBATCH, vb=vb)
+    model = draw(model_recipe(d, M, bp, strategy, dist, draw(st.sampled_from(list(jitters)))))
+    case = {"d": d, "M": M, "n": n, "bp": bp, "model": model, "q": draw(VM.q_params(M, vb)),
             "X": draw(kern.points(n, d, [])), "y": draw(targets(lik, [n])), "lik": draw(lik_recipe(lik, n, False)),
             "mode": draw(st.sampled_from(["train", "train", "eval"])) if strategy == "Variational" else "train"}
     pert = st.fixed_dictionaries({
@@ -732,7 +735,7 @@ def run_ngd(case, ctx: Ctx):
         opt = gpytorch.optim.NGD(model.variational_parameters(), num_data=N, lr=lr)
         opt.zero_grad()
         loss = -mll(model(Xb), yb, **call_kwargs(case, idx))
-        loss.backward()
+        (loss.sum() if loss.dim() else loss).backward()
         opt.step()
         vd = VM.base_strategy(model)._variational_distribution
         g1, g2 = vd.natural_vec.detach().clone(), vd.natural_mat.detach().clone()
@@ -755,11 +758,11 @@ def run_ngd(case, ctx: Ctx):
         kk = max(VO.cond(Ss), kap) * max(1.0, sc / scale_of(want[0], want[1]))
         t2 = max(min(max(1e3 * EPS * kk, 1e-8), 1e-5), floor * max(1.0, blk.kappa ** 0.5))
         sc2 = scale_of(ms, Ss)
-        ctx.close("decoded_mean=m*", m1, ms, rtol=t2, atol=t2, scale=sc2)
-        ctx.close("decoded_cov=S*", S1, Ss, rtol=t2, atol=t2, scale=sc2)
+        ctx.close("decoded_mean=m*", m1, ms.expand(m1.shape), rtol=t2, atol=t2, scale=sc2)
+        ctx.close("decoded_cov=S*", S1, Ss.expand(S1.shape), rtol=t2, atol=t2, scale=sc2)
     ctx.set_nontrivial(VM.q_is_nontrivial(m0, S0) and M >= 2)
     ctx.label(f"lik={case['lik']['l']}", f"strategy={strat}", f"cell={'lr=beta=1' if exact else 'general'}", f"lr={lr:g}", f"beta={beta:g}",
-              f"B{'<' if B < N else ('=' if B == N else '>')}N", f"S0{'!=' if VM.q_is_nontrivial(m0, S0) else '='}I")
+              f"B{'<' if B < N else ('=' if B == N else '>')}N", f"S0{'!=' if VM.q_is_nontrivial(m0, S0) else '='}I", f"ngd.vb={case['bp']['vb']}")
 
 
 # ---------------------------------------------------------------------------------------------------
